@@ -110,7 +110,7 @@ func runC10(r *Report, p *Program) {
 // c10R6: the cursor protocol that the parser's exceptions rest on.
 func c10R6(h H) {
 	r := h.r
-	r.Rule("R6", "cursor protocol: Dispenser.Next, evaluated (E10) for every token list of length 0-3 and every cursor position, advances by one and returns true exactly when a further token exists (so Next()==true implies cursor < len(tokens)); the Dispenser constructors start the cursor at -1; every decrement of the cursor lies directly behind a successful Next/NextArg/NextLine/nextOnSameLine, a successful doImport, or the openCurlyBrace test", 5)
+	r.Rule("R6", "cursor protocol: Dispenser.Next, evaluated (E10) for every token list of length 0-3 (0-8 in the thorough tier) and every cursor position, advances by one and returns true exactly when a further token exists (so Next()==true implies cursor < len(tokens)); the Dispenser constructors start the cursor at -1; every decrement of the cursor lies directly behind a successful Next/NextArg/NextLine/nextOnSameLine, a successful doImport, or the openCurlyBrace test", 5)
 	// Next as a decision table (E10): token lists of length 0–3, cursor anywhere from -1 to len
 	if nx := h.fn("R6", cfPkg, "(*Dispenser).Next"); nx != nil {
 		dT := nx.Params[0].Type().(*types.Pointer).Elem()
@@ -123,7 +123,7 @@ func c10R6(h H) {
 			}
 		}
 		bad, nrun := "", 0
-		for n := 0; n <= 3 && bad == ""; n++ {
+		for n := 0; n <= tb(3, 8) && bad == ""; n++ {
 			for cur := -1; cur <= n && bad == ""; cur++ {
 				var toks []aval
 				for k := 0; k < n; k++ {
